@@ -62,10 +62,11 @@ def gen_params(r):
 
 def make_case(seed, i):
     r = cm.rng(seed, "c02", i)
-    if i % 10 == 7:
-        # a program of fragment 2 of the unused side (Fragment.u2_block, imports bound once): functions and lambdas, the
-        # imports `as` fresh names at top-level positions - what C02_tidy_remove_preserves_trace_stage2 is about
-        prog = c05.to_u2(r, G.gen_program(r, True, classes=False, funcs=True, comps=False))
+    if i % 10 in (3, 7):
+        # a program of fragment 2 / 3 of the unused side (Fragment.u2_block / u3_block, imports bound once): functions and
+        # lambdas (i % 10 == 3: comprehensions too), the imports `as` fresh names at top-level positions - what
+        # C02_tidy_remove_preserves_trace_stage2 / _stage3 are about
+        prog = c05.to_u2(r, G.gen_program(r, True, classes=False, funcs=True, comps=(i % 10 == 3)))
         return {"kind": "exec", "i": i, "prog": G.normalise(prog), "ns": [[G.REG, G.DEC]], "params": gen_params(r)}
     g = G.Gen(r, True, maxdepth=2, mods=MODS2)
     prog = []
